@@ -119,9 +119,47 @@ pub fn run(ctx: &Ctx) -> CheckResult {
         });
         res.absorb(merge_jobs(outs));
     }
+    // very long runs: incremental double-double reference, all orderings of two regime segments
+    if !res.out.failed() {
+        use crate::regimes::{orderings, Regime};
+        let ords = orderings(&[Regime::Walk, Regime::Saw, Regime::Extremes, Regime::Stair, Regime::Spikes], 2);
+        let seglen = if th { 500_000 } else { 25_000 };
+        let mut jobs: Vec<(Cfg, Vec<Regime>, f64, bool)> = vec![];
+        for &n in &[1usize, 2, 9, 14, 50] {
+            for (oi, ord) in ords.iter().enumerate() {
+                for &m in &[0.7, 1.1e6] {
+                    if !th && (oi + n) % 3 != 0 {
+                        continue;
+                    }
+                    for k in [Kind::Rsi, Kind::FastStoch, Kind::Roc, Kind::Er] {
+                        jobs.push((Cfg::p1(k, n), ord.clone(), m, false));
+                    }
+                    jobs.push((Cfg::p1(Kind::FastStoch, n), ord.clone(), m, true));
+                    jobs.push((Cfg::p2(Kind::SlowStoch, n, 3), ord.clone(), m, true));
+                    jobs.push((Cfg::p2(Kind::SlowStoch, n, 3), ord.clone(), m, false));
+                    jobs.push((Cfg::p3(Kind::Ppo, n, 2 * n + 1, 9), ord.clone(), m, false));
+                    if n == 1 {
+                        jobs.push((Cfg::p0(Kind::Obv), ord.clone(), m, true));
+                    }
+                }
+            }
+        }
+        res.extra.insert("very_long_runs".into(), json!(jobs.len()));
+        let outs = par_run(ctx, &jobs, |_, (cfg, ord, m, bars)| {
+            let mut out = JobOut::default();
+            let e = if ctx.out_of_time() { out.stats.capped.push("time cap in very long runs".into()); Ok(()) } else { long_run_incref(PROP, cfg, ord, seglen, *m, *bars, ctx.seed, 97, &mut out) };
+            (out, e.err())
+        });
+        for (o, e) in outs {
+            if let Some(e) = e {
+                res.machinery_errors.push(e);
+            }
+            res.absorb(o);
+        }
+    }
     res.require(res.out.stats.evaluations > 0, "no applicable oracle evaluation");
     res.rule = "case = (configuration, history of positive prices / valid bars) replayed on a fresh real instance; last output compared with the documented formula evaluated from scratch (double-double) at tolerance tau(t)*c*scale; steps with zero reference denominator or c>1e6 are skipped and counted; non-trivial = applicable and history longer than the look-back".into();
-    res.bounds = format!("seq(S_pos+reset,{d}) for RSI/FAST_STOCH/ROC/ER n=1..5; seq(B_grid+reset,{db}) for FAST_STOCH/CCI/OBV; seq(B_vol,{dv}) for MFI n=1..5 and OBV; seq(B_mfi (5 bars with equal typical prices), 8/10) for MFI n=1..4; the same alphabets in a 2^-60 price unit for periods 1..4 at reduced depth; SLOW_STOCH over {{1,2,3,5}}^2, PPO over {{1,2,3,5}}^3 at reduced depth; deviation families for periods up to {}", if th { 512 } else { 100 });
+    res.bounds = format!("seq(S_pos+reset,{d}) for RSI/FAST_STOCH/ROC/ER n=1..5; seq(B_grid+reset,{db}) for FAST_STOCH/CCI/OBV; seq(B_vol,{dv}) for MFI n=1..5 and OBV; seq(B_mfi (5 bars with equal typical prices), 8/10) for MFI n=1..4; the same alphabets in a 2^-60 price unit for periods 1..4 at reduced depth; SLOW_STOCH over {{1,2,3,5}}^2, PPO over {{1,2,3,5}}^3 at reduced depth; deviation families for periods up to {}; very long runs (2 x 25k / 2 x 500k steps) of RSI/FAST_STOCH/SLOW_STOCH/ROC/ER/PPO/OBV against an incremental double-double reference", if th { 512 } else { 100 });
     res.assumptions = vec!["positive prices / valid bars only (the statement's domain)".into(), "c read as (largest magnitude entering numerator or denominator, inputs included) / |reference denominator|".into()];
     res
 }
